@@ -192,7 +192,10 @@ class World:
 
 
 def gen_times(rng: random.Random, n: int) -> list:
-    style = rng.choice(["int", "int", "float", "neg", "irregular", "np"])
+    style = rng.choice(["int", "int", "float", "neg", "irregular", "np", "decimal"])
+    if style == "decimal":
+        t0, step = rng.choice([0.1, -3.3, 1 / 3]), rng.choice([0.1, 0.7, 1 / 7])
+        return [t0 + i * step for i in range(n)]
     t = {"int": rng.randint(0, 5), "float": q(rng.uniform(0, 3)), "neg": -q(rng.uniform(5, 50)),
          "irregular": q(rng.uniform(-2, 2)), "np": rng.randint(0, 3)}[style]
     out = []
